@@ -509,6 +509,42 @@ def srv_sock_states(sport):
     return out
 
 
+class SockDiag:
+    """state of one TCP socket by exact lookup (NETLINK_SOCK_DIAG); reading /proc/net/tcp costs a walk over
+    every socket of the machine, far too slow next to other test servers"""
+
+    def __init__(self):
+        import struct
+        self.struct = struct
+        self.seq = 0
+        try:
+            self.s = socket.socket(socket.AF_NETLINK, socket.SOCK_RAW, 4)
+            self.s.settimeout(1.0)
+        except OSError:
+            self.s = None
+
+    def state(self, lport, rport):
+        """TCP state of the socket 127.0.0.1:lport <-> 127.0.0.1:rport; None or 10 (LISTEN): no such socket"""
+        if self.s is None:
+            return srv_sock_states(lport).get(rport)
+        st = self.struct
+        try:
+            self.seq += 1
+            lo = socket.inet_aton("127.0.0.1")
+            sockid = st.pack("!HH", lport, rport) + lo + b"\0" * 12 + lo + b"\0" * 12 + st.pack("=III", 0, 0xffffffff, 0xffffffff)
+            req = st.pack("=BBBxI", socket.AF_INET, socket.IPPROTO_TCP, 0, 0xffffffff) + sockid
+            self.s.send(st.pack("=IHHII", 16 + len(req), 20, 1, self.seq, 0) + req)
+            data = self.s.recv(8192)
+            typ = st.unpack("=IHHII", data[:16])[1]
+            return None if typ == 2 else data[17]
+        except (OSError, IndexError, st.error):
+            return srv_sock_states(lport).get(rport)
+
+    def close(self):
+        if self.s is not None:
+            self.s.close()
+
+
 class RtClient:
     def __init__(self, port):
         self.port = port
@@ -595,11 +631,11 @@ class RtClient:
                 self._feed(d)
         return got
 
-    def fin_visible(self, states):
+    def fin_visible(self, diag):
         if self.failed or self.closed:
             return False
-        # neither ESTABLISHED nor CLOSE_WAIT (nor still in the accept queue): the server shut down / closed
-        return states.get(self.cport) not in (1, 8)
+        # neither ESTABLISHED (also: still in the accept queue) nor CLOSE_WAIT: the server shut down / closed
+        return diag.state(self.port, self.cport) not in (1, 8)
 
 
 def run_rt(bd, line, h2=False):
@@ -610,13 +646,14 @@ def run_rt(bd, line, h2=False):
     srv = e2e.Server(bd, server_conf(cfg), modules=("mod_cgi",))
     setup_docroot(srv)
     res = dict(line=line, obs=[], error=None, exit_tick=None, fin_tick={}, statuses={}, flags={}, nbytes={},
-               complete={}, ticks=[])
+               complete={}, ticks=[], optime=[])
     cl = {}
     try:
         srv.start()
     except Exception as e:           # noqa
         res["error"] = "server did not start: %s" % e
         return res
+    diag = SockDiag()
     try:
         t0 = time.time()
         tick = 0
@@ -625,11 +662,9 @@ def run_rt(bd, line, h2=False):
         def poll_all():
             nonlocal exited_at
             tick = int(time.time() - t0)          # (observations are stamped with the real second)
-            if any(c.fin_seen_at is None and not c.failed and not c.closed for c in cl.values()):
-                states = srv_sock_states(srv.port)
-                for i, c in cl.items():
-                    if c.fin_seen_at is None and c.fin_visible(states):
-                        c.fin_seen_at = tick
+            for i, c in cl.items():
+                if c.fin_seen_at is None and c.fin_visible(diag):
+                    c.fin_seen_at = tick
             if exited_at is None and srv.proc.poll() is not None:
                 exited_at = tick
         for op in ops:
@@ -642,7 +677,7 @@ def run_rt(bd, line, h2=False):
                         left = t0 + tick - time.time()
                         if left <= 0:
                             break
-                        time.sleep(min(0.2, left))
+                        time.sleep(min(0.1, left))
                         # (poll while waiting so that the tick of an observation is the second it happened in)
                         poll_all()
             elif k == "o":
@@ -699,6 +734,7 @@ def run_rt(bd, line, h2=False):
             time.sleep(0.05)
             poll_all()
             res["ticks"].append(max(tick, int(time.time() - t0)))
+            res["optime"].append(round(time.time() - t0, 2))
             res["obs"].append({i: (list(c.statuses), c.fin_seen_at is not None, c.eof, c.err or c.failed) for i, c in cl.items()})
         res["exit_tick"] = exited_at
         for i, c in cl.items():
@@ -715,6 +751,7 @@ def run_rt(bd, line, h2=False):
                 c.s.close()
             except OSError:
                 pass
+        diag.close()
         alive = srv.alive()
         srv.stop()
         rep = srv.sanitizer_report()
@@ -961,7 +998,8 @@ def run_h2(bd, name, cfg):
             c.send(e2e.h2_frame(0, 0, 1, b"d" * 10))
         elif name == "h2-window-stall":
             c.request(1, "GET", "/b")        # 65535 bytes of credit, never renewed
-            c.pump(3.0, until=lambda f: sum(len(x[3]) for x in f if x[0] == 0) >= 65535)
+            c.pump(3.0, until=lambda f: sum(len(x[3]) for x in f if x[0] == 0) >= 60000)
+            c.pump(0.3)
         t0 = time.time()
         c.pump(12.0, until=lambda f: False)
         res["elapsed"] = time.time() - t0 - (0 if c.closed else 0)
@@ -993,7 +1031,7 @@ def run(ctx):
     ctx.differential("main-loop scenarios(virtual time)", [exe], "life", sc_lines, oracle_sc, classify_sc)
     ctx.exhaustive = False
     ctx.notes.append("ct1: exhaustive over state x FDEVENT_IN x request_count x version x timestamps in a "
-                     "7-second window x idle settings (quick: 20% sample) + random incl. 2^31 / 2^40 clocks; "
+                     "7-second window x idle settings (quick: 20%% sample) + random incl. 2^31 / 2^40 clocks; "
                      "ct2: exhaustive up to 2 streams + random up to 8; lc: exhaustive around the watermarks; "
                      "sc: %d fixed + %d random scripts (3 event handlers, 1-12 clients, 8-45 actions)"
                      % (len(FIXED_SC), n_sc))
